@@ -9,6 +9,7 @@ Fiat–Shamir hash hit the unique admissible challenge (forgery) or a transcript
 random-oracle assumption of the VOPRF draft. (E) nonces/commitments of different requests are
 distinct: OS RNG, measured by the oracle.
 -/
+import StarModel.Lemmas.Skeleton
 import StarModel.Lemmas.Ppoprf
 
 namespace StarModel.Props.C13
